@@ -6,10 +6,13 @@
 package main
 
 import (
+	"crypto/sha1"
+	"encoding/json"
 	"flag"
 	"fmt"
 	"os"
 	"regexp"
+	"sort"
 	"strings"
 )
 
@@ -17,6 +20,17 @@ type alt struct {
 	syms   []string
 	action string
 }
+
+// orule: one grammar rule (one alternative) in order of appearance; goyacc numbers them 1, 2, …
+type orule struct {
+	lhs       string
+	syms      []string
+	action    string
+	hasAction bool
+}
+
+var ordered []orule  // filled by parseRules
+var midRule []string // nonterminals having a mid-rule action (filled by parseRules)
 
 func fail(format string, a ...interface{}) {
 	fmt.Fprintf(os.Stderr, "yaccfacts: "+format+"\n", a...)
@@ -36,11 +50,22 @@ func parseRules(src string) map[string][]alt {
 	cur := ""
 	var syms []string
 	action := ""
+	hasAction := false
+	ordered = nil
+	midRule = nil
 	flush := func() {
 		if cur != "" {
 			rules[cur] = append(rules[cur], alt{syms, action})
+			ordered = append(ordered, orule{cur, syms, action, hasAction})
 		}
-		syms, action = nil, ""
+		syms, action, hasAction = nil, "", false
+	}
+	sym := func(w string) {
+		if hasAction {
+			// goyacc turns a mid-rule action into a hidden rule `$$N:` and shifts the numbering
+			midRule = append(midRule, cur)
+		}
+		syms = append(syms, w)
 	}
 	for i < n {
 		c := s[i]
@@ -89,6 +114,7 @@ func parseRules(src string) map[string][]alt {
 				}
 			}
 			action += s[i:j]
+			hasAction = true
 			i = j
 		case c == '|':
 			flush()
@@ -98,7 +124,7 @@ func parseRules(src string) map[string][]alt {
 			cur = ""
 			i++
 		case c == '\'':
-			syms = append(syms, s[i:i+3])
+			sym(s[i : i+3])
 			i += 3
 		default:
 			j := i
@@ -118,7 +144,7 @@ func parseRules(src string) map[string][]alt {
 				cur = word
 				i = k + 1
 			} else {
-				syms = append(syms, word)
+				sym(word)
 				i = j
 			}
 		}
@@ -154,19 +180,418 @@ func tokShort(t string) string { s := tokLean(t); return s[1 : len(s)-1] }
 var opRe = regexp.MustCompile(`Op:\s*ast\.(\w+)`)
 var cmpRe = regexp.MustCompile(`\$\$\s*=\s*ast\.(\w+)`)
 
+// ---------------------------------------------------------------------------------------------
+// Rule facts: for every MODELLED nonterminal the right-hand sides (as written in grammar.y) and a
+// fingerprint of the normalised semantic action, both of grammar.y and of the `case N:` of parser/y.go
+// (goyacc numbers the rules 1, 2, … in order of appearance; rule 0 is $accept; a rule without an
+// action has no case).  grammar.y and y.go must agree on EVERY rule (modelled or not), otherwise the
+// extractor fails naming the rule: y.go is what runs, grammar.y is what the Lean grammar was read from.
+// ---------------------------------------------------------------------------------------------
+
+// modelled: the nonterminals the Lean grammar (Model.lean section 5, Stmt.lean) transliterates, plus
+// the list-like helpers their rules reference.  One pinned theorem per name in lean/GPy/C06/RulePins.lean.
+var modelled = []string{
+	"inputs", "single_input", "file_input", "nl_or_stmt", "eval_input", "nls",
+	"optional_arglist", "optional_arglist_call", "decorator", "decorators", "classdef_or_funcdef", "decorated",
+	"optional_return_type", "funcdef", "parameters", "optional_typedargslist",
+	"tfpdeftest", "tfpdeftests", "tfpdeftests1", "optional_tfpdef", "typedargslist", "tfpdef",
+	"vfpdeftest", "vfpdeftests", "vfpdeftests1", "optional_vfpdef", "varargslist", "vfpdef",
+	"expr_stmt", "yield_expr_or_testlist", "yield_expr_or_testlist_star_expr", "equals_yield_expr_or_testlist_star_expr",
+	"test_or_star_exprs", "test_or_star_expr", "optional_comma", "testlist_star_expr", "augassign",
+	"del_stmt", "return_stmt",
+	"dot", "dots", "from_arg", "import_from_arg", "import_from", "import_as_name", "dotted_as_name",
+	"import_as_names", "dotted_as_names", "dotted_name", "names", "global_stmt", "nonlocal_stmt", "tests",
+	"optional_else", "for_stmt", "with_items", "with_stmt", "with_item",
+	"test", "test_nocond", "lambdef", "lambdef_nocond", "star_expr",
+	"power", "trailers", "strings", "atom", "trailer", "subscripts", "subscriptlist", "subscript", "sliceop",
+	"expr_or_star_expr", "expr_or_star_exprs", "exprlist", "testlist", "testlistraw",
+	"test_colon_tests", "dictorsetmaker", "classdef", "arguments", "optional_arguments", "arguments2", "arglist", "argument",
+	"comp_iter", "comp_for", "comp_if", "yield_expr",
+}
+
+// ygoExceptions: rules whose y.go action legitimately cannot be matched textually against grammar.y
+// after normalisation.  Key: "lhs: rhs"; the pair of fingerprints (grammar.y, y.go) was compared by
+// hand and is accepted as equivalent; any other pair is a mismatch.
+var ygoExceptions = map[string]struct{ gfp, yfp, why string }{
+	// grammar.y: `for i, item := range(extslice.Dims) {`   y.go: `for i, item := range extslice.Dims {`
+	// (y.go went through gofmt -s, which drops the redundant parentheses); rest of the action identical
+	"trailer: '[' subscriptlist ']'": {"c686eb5dc0ed", "e441b9e5e6aa", "gofmt -s removed the parentheses of range(extslice.Dims)"},
+}
+
+var (
+	reValG  = regexp.MustCompile(`\$(<\w+>)?\$`)
+	reArgG  = regexp.MustCompile(`\$(<\w+>)?(\d+)`)
+	reValY  = regexp.MustCompile(`\byyVAL\.\w+`)
+	reArgY  = regexp.MustCompile(`\byyDollar\[(\d+)\]\.\w+`)
+	reSlice = regexp.MustCompile(`^yyDollar=yyS\[yypt-\d+:yypt\+1\]`)
+)
+
+// stripCode removes comments (hence `//line` directives) and all white space outside string and
+// character literals.
+func stripCode(s string) string {
+	var sb strings.Builder
+	n := len(s)
+	for i := 0; i < n; {
+		c := s[i]
+		switch {
+		case c == ' ' || c == '\t' || c == '\n' || c == '\r':
+			i++
+		case strings.HasPrefix(s[i:], "//"):
+			for i < n && s[i] != '\n' {
+				i++
+			}
+		case strings.HasPrefix(s[i:], "/*"):
+			j := strings.Index(s[i+2:], "*/")
+			if j < 0 {
+				i = n
+			} else {
+				i += j + 4
+			}
+		case c == '"' || c == '\'':
+			j := i + 1
+			for j < n && s[j] != c {
+				if s[j] == '\\' {
+					j++
+				}
+				j++
+			}
+			if j >= n {
+				j = n - 1
+			}
+			sb.WriteString(s[i : j+1])
+			i = j + 1
+		case c == '`':
+			j := strings.IndexByte(s[i+1:], '`')
+			if j < 0 {
+				sb.WriteString(s[i:])
+				i = n
+			} else {
+				sb.WriteString(s[i : i+j+2])
+				i += j + 2
+			}
+		default:
+			sb.WriteByte(c)
+			i++
+		}
+	}
+	return sb.String()
+}
+
+func normGrammar(a string) string {
+	// substitute before stripping: white space delimits the identifiers
+	a = reValG.ReplaceAllString(a, "$$$$")
+	a = reArgG.ReplaceAllString(a, "$$$2")
+	return stripCode(a)
+}
+
+func normYgo(a string) string {
+	a = reValY.ReplaceAllString(a, "$$$$")
+	a = reArgY.ReplaceAllString(a, "$$$1")
+	return reSlice.ReplaceAllString(stripCode(a), "")
+}
+
+func fp(norm string) string {
+	if norm == "" {
+		return ""
+	}
+	return fmt.Sprintf("%x", sha1.Sum([]byte(norm)))[:12]
+}
+
+var reCase = regexp.MustCompile(`(?m)^\tcase (\d+):\n`)
+
+// parseYgo: rule number -> raw text of the `case N:` body of the action switch of y.go
+func parseYgo(src string) map[int]string {
+	k := strings.Index(src, "\tswitch yynt {\n")
+	if k < 0 {
+		fail("y.go: no `switch yynt {` action switch")
+	}
+	body := src[k:]
+	e := strings.Index(body, "\n\t}\n\tgoto yystack")
+	if e < 0 {
+		fail("y.go: end of the action switch not found")
+	}
+	body = body[:e+1]
+	locs := reCase.FindAllStringSubmatchIndex(body, -1)
+	res := map[int]string{}
+	for i, l := range locs {
+		var num int
+		fmt.Sscanf(body[l[2]:l[3]], "%d", &num)
+		end := len(body)
+		if i+1 < len(locs) {
+			end = locs[i+1][0]
+		}
+		if _, dup := res[num]; dup {
+			fail("y.go: duplicate case %d", num)
+		}
+		res[num] = body[l[1]:end]
+	}
+	return res
+}
+
+func leanStr(s string) string {
+	return `"` + strings.NewReplacer(`\`, `\\`, `"`, `\"`).Replace(s) + `"`
+}
+func leanList(xs []string) string {
+	q := make([]string, len(xs))
+	for i, x := range xs {
+		q[i] = leanStr(x)
+	}
+	return "[" + strings.Join(q, ", ") + "]"
+}
+func leanIdent(nt string) string { return "r_" + nt }
+
+func writeIfChanged(path, text, what string) {
+	old, _ := os.ReadFile(path)
+	if string(old) == text {
+		fmt.Fprintf(infoOut, "yaccfacts: %s, %s unchanged\n", what, path)
+		return
+	}
+	if err := os.WriteFile(path, []byte(text), 0o644); err != nil {
+		fail("%v", err)
+	}
+	fmt.Fprintf(infoOut, "yaccfacts: %s, %s REWRITTEN\n", what, path)
+}
+
+// ruleFacts writes GeneratedRules.lean / the TSV and returns the disagreements grammar.y <-> y.go
+func ruleFacts(ygoPath, leanOut, tsvOut string) []string {
+	var errs []string
+	if len(midRule) > 0 {
+		// a mid-rule action makes goyacc insert a hidden rule, which would shift every later number
+		fail("grammar.y has mid-rule actions (in %s): rule numbering of y.go not modelled", strings.Join(midRule, ", "))
+	}
+	yb, err := os.ReadFile(ygoPath)
+	if err != nil {
+		fail("%v", err)
+	}
+	cases := parseYgo(string(yb))
+	type ruleData struct {
+		alts     [][]string
+		nums     []int
+		afp, yfp []string
+	}
+	data := map[string]*ruleData{}
+	var order []string
+	used := map[int]bool{}
+	for i, r := range ordered {
+		num := i + 1
+		g := ""
+		if r.hasAction {
+			g = normGrammar(r.action)
+		}
+		y := ""
+		raw, has := cases[num]
+		if has {
+			y = normYgo(raw)
+			used[num] = true
+		}
+		name := fmt.Sprintf("rule %d (%s: %s)", num, r.lhs, strings.Join(r.syms, " "))
+		if ex, ok := ygoExceptions[r.lhs+": "+strings.Join(r.syms, " ")]; ok && g != y && ex.gfp == fp(g) && ex.yfp == fp(y) {
+			fmt.Fprintf(infoOut, "yaccfacts: %s: accepted textual difference grammar.y %s / y.go %s (%s)\n", name, ex.gfp, ex.yfp, ex.why)
+		} else if r.hasAction != has {
+			errs = append(errs, fmt.Sprintf("%s: action in grammar.y=%v but `case %d:` in y.go=%v", name, r.hasAction, num, has))
+		} else if g != y {
+			errs = append(errs, fmt.Sprintf("%s: the action of grammar.y and `case %d:` of y.go DISAGREE (y.go was not regenerated from this grammar.y, or was edited)\n    grammar.y: %s\n    y.go     : %s", name, num, clip(g), clip(y)))
+		}
+		d := data[r.lhs]
+		if d == nil {
+			d = &ruleData{}
+			data[r.lhs] = d
+			order = append(order, r.lhs)
+		}
+		syms := r.syms
+		if syms == nil {
+			syms = []string{}
+		}
+		d.alts = append(d.alts, syms)
+		d.nums = append(d.nums, num)
+		d.afp = append(d.afp, fp(g))
+		d.yfp = append(d.yfp, fp(y))
+	}
+	for num := range cases {
+		if !used[num] {
+			errs = append(errs, fmt.Sprintf("y.go has `case %d:` but grammar.y has only %d rules", num, len(ordered)))
+		}
+	}
+	sort.Strings(errs)
+	for _, m := range modelled {
+		if data[m] == nil {
+			fail("modelled nonterminal %s has no rule in grammar.y", m)
+		}
+	}
+	isModelled := map[string]bool{}
+	for _, m := range modelled {
+		isModelled[m] = true
+	}
+	// emit in grammar order
+	var names []string
+	for _, nt := range order {
+		if isModelled[nt] {
+			names = append(names, nt)
+		}
+	}
+	var sb, tsv, pins strings.Builder
+	pins.WriteString(pinsHeader)
+	sb.WriteString(`/-
+GENERATED by extract/yaccfacts from parser/grammar.y and parser/y.go – do not edit.
+Regenerated on every ` + "`./check C06`" + `.  For every modelled nonterminal: its alternatives exactly as spelled in
+grammar.y ([] = the empty alternative), the fingerprint (12 hex digits of sha1) of each alternative's
+normalised action in grammar.y ("" = no action) and of the corresponding ` + "`case N:`" + ` of y.go (goyacc rule
+number N = position of the alternative in grammar.y, from 1).  ` + "`GPy.C06.RulePins`" + ` pins every rule, one
+theorem per nonterminal.
+-/
+namespace GPy.C06.GeneratedRules
+
+structure Rule where
+  lhs      : String
+  alts     : List (List String)
+  actionFp : List String
+  ygoFp    : List String
+deriving DecidableEq, Repr, Inhabited
+
+`)
+	for _, nt := range names {
+		d := data[nt]
+		nums := make([]string, len(d.nums))
+		for i, x := range d.nums {
+			nums[i] = fmt.Sprint(x)
+		}
+		var body strings.Builder
+		body.WriteString("  lhs := " + leanStr(nt) + "\n  alts := [\n")
+		for i, a := range d.alts {
+			sep := ","
+			if i == len(d.alts)-1 {
+				sep = ""
+			}
+			body.WriteString("    " + leanList(a) + sep + "\n")
+		}
+		body.WriteString("  ]\n  actionFp := " + leanList(d.afp) + "\n  ygoFp := " + leanList(d.yfp) + "\n\n")
+		sb.WriteString(fmt.Sprintf("/-- grammar.y rules %s -/\ndef %s : Rule where\n", strings.Join(nums, ", "), leanIdent(nt)) + body.String())
+		pins.WriteString("def expected_" + nt + " : Rule where\n" + body.String() +
+			"theorem rule_" + nt + "_pinned : GeneratedRules.lookup " + leanStr(nt) + " = some expected_" + nt + " := by decide\n\n")
+		aj, _ := json.Marshal(d.alts)
+		tsv.WriteString(nt + "\t" + string(aj) + "\t" + strings.Join(d.afp, ",") + "\t" + strings.Join(d.yfp, ",") + "\n")
+	}
+	sb.WriteString("def rules : List Rule := [\n")
+	for i, nt := range names {
+		if i > 0 {
+			sb.WriteString(",\n")
+		}
+		sb.WriteString("  " + leanIdent(nt))
+	}
+	sb.WriteString("\n]\n\n/-- the modelled nonterminals, in grammar order -/\ndef modelled : List String := rules.map (·.lhs)\n\n" +
+		"def lookup (nt : String) : Option Rule := rules.find? (·.lhs == nt)\n\n" +
+		"/-- goyacc rule numbers of the alternatives (informative, not pinned: they shift when a rule is added above) -/\n" +
+		"def ruleNumbers : List (String × List Nat) := [\n")
+	for i, nt := range names {
+		d := data[nt]
+		nums := make([]string, len(d.nums))
+		for j, x := range d.nums {
+			nums[j] = fmt.Sprint(x)
+		}
+		sep := ","
+		if i == len(names)-1 {
+			sep = ""
+		}
+		sb.WriteString("  (" + leanStr(nt) + ", [" + strings.Join(nums, ", ") + "])" + sep + "\n")
+	}
+	sb.WriteString("]\n\n/-- number of rules of the whole grammar.y (modelled or not) -/\ndef totalRules : Nat := " + fmt.Sprint(len(ordered)) + "\n\nend GPy.C06.GeneratedRules\n")
+	what := fmt.Sprintf("%d modelled nonterminals of %d (%d rules, %d y.go cases)", len(names), len(order), len(ordered), len(cases))
+	if leanOut != "" {
+		writeIfChanged(leanOut, sb.String(), what)
+	}
+	if tsvOut != "" {
+		writeIfChanged(tsvOut, tsv.String(), what)
+	}
+	if printPins {
+		pins.WriteString("/-- everything the Lean grammar was written against, in grammar order -/\ndef expected : List Rule := [\n")
+		for i, nt := range names {
+			if i > 0 {
+				pins.WriteString(",\n")
+			}
+			pins.WriteString("  expected_" + nt)
+		}
+		pins.WriteString("\n]\n\n/-- no modelled nonterminal appeared or disappeared -/\n" +
+			"theorem modelled_pinned : GeneratedRules.modelled = expected.map (·.lhs) := by decide\n\nend GPy.C06.RulePins\n")
+		fmt.Print(pins.String())
+	}
+	return errs
+}
+
+// printPins: print a fresh RulePins.lean to stdout (for a human re-baselining the pins after reading the
+// grammar change and updating the Lean grammar; ./check never does this)
+var printPins bool
+var infoOut = os.Stdout
+
+const pinsHeader = `/-
+HAND-MAINTAINED pins of the grammar rules the Lean grammar model (Model.lean section 5, Stmt.lean) was
+written against: right-hand sides as spelled in parser/grammar.y and fingerprints of the semantic
+actions (grammar.y and the ` + "`case N:`" + ` of parser/y.go).  NOT rewritten by ./check: GeneratedRules.lean is
+regenerated from the repository on every run, and a rule whose shape or action changed breaks the
+obligation that NAMES it (rule_<nonterminal>_pinned).  To re-baseline after the model has been brought
+up to date with a grammar change: copy the new ` + "`r_<nt>`" + ` from GeneratedRules.lean into ` + "`expected_<nt>`" + ` here
+(or ` + "`go run ./extract/yaccfacts -grammar … -ygo … -print-pins`" + `) and refresh facts/C06.rules.tsv.
+-/
+import GPy.C06.GeneratedRules
+namespace GPy.C06.RulePins
+open GPy.C06.GeneratedRules (Rule)
+
+`
+
+func clip(s string) string {
+	if len(s) > 300 {
+		return s[:300] + "…"
+	}
+	return s
+}
+
 func main() {
 	grammar := flag.String("grammar", "/repo/parser/grammar.y", "grammar.y")
 	out := flag.String("out", "", "Generated.lean to (re)write")
+	rulesOut := flag.String("rules-out", "", "GeneratedRules.lean to (re)write (needs -ygo)")
+	rulesTsv := flag.String("rules-tsv", "", "plain TSV of the rule facts: nt, alternatives (JSON), action fingerprints, y.go fingerprints")
+	ygo := flag.String("ygo", "", "parser/y.go")
+	flag.BoolVar(&printPins, "print-pins", false, "print a fresh lean/GPy/C06/RulePins.lean to stdout and nothing else (manual re-baselining; needs -ygo)")
 	flag.Parse()
+	if printPins {
+		infoOut = os.Stderr
+	}
 	b, err := os.ReadFile(*grammar)
 	if err != nil {
 		fail("%v", err)
 	}
 	rules := parseRules(string(b))
+	if *rulesOut != "" || *rulesTsv != "" || *ygo != "" {
+		if *ygo == "" {
+			fail("-rules-out/-rules-tsv need -ygo")
+		}
+		errs := ruleFacts(*ygo, *rulesOut, *rulesTsv)
+		if printPins {
+			if len(errs) > 0 {
+				fail("grammar.y and y.go disagree: %s", strings.Join(errs, "\n"))
+			}
+			return
+		}
+		if len(errs) > 0 {
+			for _, e := range errs {
+				fmt.Fprintf(os.Stderr, "yaccfacts: RULE MISMATCH %s\n", e)
+			}
+			defer func() {
+				var short []string
+				for _, e := range errs {
+					short = append(short, strings.SplitN(e, "\n", 2)[0])
+				}
+				fmt.Fprintf(os.Stderr, "yaccfacts: FAILED: grammar.y and y.go disagree on %d rule(s): %s\n", len(errs), clip(strings.Join(short, "; ")))
+				os.Exit(1)
+			}()
+		}
+	}
 	var names, levels []string
 	index := map[string]int{}
 	cur := "test"
-	type pend struct{ idx int; tok, op, rhs string }
+	type pend struct {
+		idx          int
+		tok, op, rhs string
+	}
 	var power *pend
 	for {
 		alts, ok := rules[cur]
